@@ -52,3 +52,11 @@ Example C16_nonvacuous :
   (exists doc, parseQuery dev_none 8 (b "{ a(x: 1) }") = POk doc) /\
   parseQuery dev_none 7 (b "{ a(x: 1) }") = PErr PLimit.
 Proof. split; [vm_compute; reflexivity|]. split; [eexists; vm_compute; reflexivity|vm_compute; reflexivity]. Qed.
+
+(* Several sources in one call (ParseSchemasWithLimit): the limit applies to every source by
+   itself — the sources before it, built-in or not, change nothing; the first source that is over
+   the limit (or fails to parse) decides. *)
+Theorem C16_schemas_exact : forall d L srcs, L <> 0%N ->
+  parseSchemas d L srcs = schemas_under_limit d L 0 srcs sdoc0.
+Proof. exact parseSchemas_limit_exact. Qed.
+Print Assumptions C16_schemas_exact.
